@@ -124,6 +124,12 @@ def main():
         shutil.copytree(os.path.join(sd, "demo"), os.path.join(dst, "demo"), ignore=shutil.ignore_patterns("target", "*.lock~"))
     if os.path.exists(os.path.join(sd, "NOTES.md")):
         shutil.copy(os.path.join(sd, "NOTES.md"), dst)
+    # build products of a demo do not belong in the repository
+    for root, _dirs, files in os.walk(dst):
+        for fn in files:
+            fp = os.path.join(root, fn)
+            if os.path.getsize(fp) > 300_000:
+                os.remove(fp)
     meta["confirmed"] = all(bool(meta["steps"].get(k)) for k in ["patch_applies_to_repo_head", "builds", "existing_tests_pass_with_change", "demo_fails_with_change", "demo_passes_without_change"])
     json.dump(meta, open(os.path.join(dst, "meta.json"), "w"), indent=1)
     print("confirmed:", meta["confirmed"], {k: v for k, v in meta["steps"].items() if isinstance(v, bool)})
